@@ -132,6 +132,9 @@ def reward_source(pattern, seed, RU=64):
         return lambda t, x: rnd.randint(-2 * RU, 2 * RU) / RU
     if pattern == "bern":
         return lambda t, x: float(rnd.randint(0, 1))
+    if pattern in ("ramp", "rampdown"):   # monotone in the first coordinate: greedy searches hug a face of the box
+        sgn = 1.0 if pattern == "ramp" else -1.0
+        return lambda t, x: sgn * float(x[0]) if isinstance(x, (list, tuple)) and len(x) else 0.0
     if pattern == "peak":  # a smooth objective of the relative position + grid noise, rounded to the grid
         def f(t, x):
             return 0.0
